@@ -148,7 +148,7 @@ theorem eval_shr (a b : BI) (n : Nat) (hb : b.v = n) (hn : n < 2 ^ 64) :
   have h1 : (0 : Int) ≤ (n : Int) ∧ (n : Int) < ((2 ^ 64 : Nat) : Int) := ⟨by omega, by exact_mod_cast hn⟩
   rw [if_pos h1]
   have : (n : Int).toNat = n := by omega
-  simp [this, unsized, Except.map, Int.shiftRight_eq_div_pow]
+  simp [this, unsized, Except.map, shrInt_eq, Int.shiftRight_eq_div_pow]
 
 theorem shift_negative_err (a b : BI) (hb : b.v < 0) :
     evalBinInt .Shl a b = .error outOfRange ∧ evalBinInt .Shr a b = .error outOfRange := by
